@@ -49,6 +49,7 @@ struct Ctx {
     chunk: usize,
     pid: u32,
     checklog: CheckLog,
+    top: String,
 }
 
 fn u64_of(v: &Value) -> u64 {
@@ -114,6 +115,11 @@ fn build_handle(spec: &Value, ctx: &Ctx) -> Handle {
         )),
         "stack" => {
             let mut b = CacheBuilder::new();
+            // "builder": "reused" -- the builder has already produced another cache (take() must leave it in its default state)
+            if spec["builder"].as_str() == Some("reused") {
+                let scratch = format!("{}/TMP/earlier-cache", ctx.top);
+                let _earlier = b.plain_writer(&scratch, 10).auto_sync(true).take().build();
+            }
             let w = &spec["writer"];
             if w.is_object() {
                 match w["kind"].as_str().unwrap_or("plain") {
@@ -664,7 +670,7 @@ fn main_traced(spec: Value) {
         }
     }
     std::panic::set_hook(Box::new(|_| {}));
-    let ctx = Ctx { chunk, pid, checklog: Arc::new(Mutex::new(Vec::new())) };
+    let ctx = Ctx { chunk, pid, checklog: Arc::new(Mutex::new(Vec::new())), top: spec["top"].as_str().unwrap_or("/nonexistent").to_string() };
     if let Some(d) = spec["draws"].as_array() {
         kismet_cache::verif::script_u64(d.iter().map(u64_of));
     }
